@@ -29,10 +29,10 @@ theorem All2.append {α β : Type} {R : α → β → Prop} : ∀ {as : List α}
   | _ :: _, [], _, _, h, _ => by cases h
 
 section Sim
-variable (c : Ctx) (vars' : Vars)
+variable (c : Ctx) (vars' : Vars) (frags' : List (String × Definition))
 
-/-- the executing context of the normalised request: same schema, fragments and world, other variable map -/
-def ctx' : Ctx := { c with vars := vars' }
+/-- the second executing context: same schema and world, other variable map, other (related) fragment table -/
+def ctx' : Ctx := { c with vars := vars', frags := frags' }
 
 /-- the relations of `NormalizeRel` instantiated at the two contexts -/
 abbrev RS := RSel c.schema c.vars vars'
@@ -40,10 +40,10 @@ abbrev RO := ROpt c.schema c.vars vars'
 abbrev RT := RSet c.schema c.vars vars'
 abbrev RL := RList c.schema c.vars vars'
 
-/-- a field node and its counterpart: same alias, name, location; arguments that evaluate alike for the field
+/-- a field node and its counterpart: same alias and name (locations may differ); arguments that evaluate alike for the field
 definition at runtime type `rt`; sub-selections related at the type the sub-selection will be executed at -/
 def NodeRel (rt : String) (n n' : FieldNode) : Prop :=
-  n'.alias = n.alias ∧ n'.name = n.name ∧ n'.loc = n.loc ∧
+  n'.alias = n.alias ∧ n'.name = n.name ∧
   ∀ fd, fieldDef? c.schema rt n.name = some fd →
     getArgumentValues c.schema fd.args n'.args vars' = getArgumentValues c.schema fd.args n.args c.vars ∧
     ∀ T, (c.schema.isObject fd.type.namedName = true → T = fd.type.namedName) → RO c vars' T n.sel n'.sel
@@ -88,9 +88,14 @@ theorem GRel.add {rt : String} {g g' : Groups} {n n' : FieldNode} (hg : GRel c v
 
 /-! ## CollectFields -/
 
-/-- fragment bodies only mention variables on which the two maps agree -/
-def FragsOK : Prop :=
-  ∀ n tc sel, c.frag? n = some (tc, sel) → ∀ v ∈ setVars sel, Ag c.vars vars' v
+/-- the two fragment tables define the same names, with type conditions that apply alike and bodies related at every
+runtime type (for the normaliser: the same table, whose bodies only mention variables on which the maps agree; for
+`stripLoc`: the table of the location-free document) -/
+def FragsRel : Prop :=
+  ∀ n, (c.frag? n = none ∧ (ctx' c vars' frags').frag? n = none) ∨
+    ∃ tc sel tc' sel', c.frag? n = some (tc, sel) ∧ (ctx' c vars' frags').frag? n = some (tc', sel') ∧
+      (∀ rt, condApplies c.schema (some tc') rt = condApplies c.schema (some tc) rt) ∧
+      ∀ rt, RT c vars' rt sel sel'
 
 abbrev Expand := String → Groups × List String → Groups × List String
 
@@ -102,52 +107,47 @@ def ExpandSim (rt : String) (e e' : Expand) : Prop :=
 mutual
 theorem collectSel_sim (rt : String) (e e' : Expand) (he : ExpandSim c vars' rt e e') :
     ∀ (x x' : Selection) (g g' : Groups) (vis : List String), RS c vars' rt x x' → GRel c vars' rt g g' →
-      GRel c vars' rt (collectSel c rt e x (g, vis)).1 (collectSel (ctx' c vars') rt e' x' (g', vis)).1 ∧
-      (collectSel (ctx' c vars') rt e' x' (g', vis)).2 = (collectSel c rt e x (g, vis)).2
+      GRel c vars' rt (collectSel c rt e x (g, vis)).1 (collectSel (ctx' c vars' frags') rt e' x' (g', vis)).1 ∧
+      (collectSel (ctx' c vars' frags') rt e' x' (g', vis)).2 = (collectSel c rt e x (g, vis)).2
   | .field al nm args dirs sel loc, x', g, g', vis, hr, hg => by
     simp only [RSel] at hr
-    obtain ⟨hd, args', sel', rfl, hfd⟩ := hr
-    have hinc : included c.schema vars' dirs = included c.schema c.vars dirs :=
-      included_congr c.schema vars' c.vars dirs hd
+    obtain ⟨al', nm', args', dirs', sel', loc', rfl, hal, hnm, hinc, hfd⟩ := hr
     simp only [collectSel, ctx', hinc]
     split
-    · first | exact ⟨GRel.add c vars' hg ⟨rfl, rfl, rfl, hfd⟩, rfl⟩ | exact ⟨GRel.add c vars' hg ⟨rfl, rfl, rfl, hfd⟩, trivial⟩
-    · first | (first | exact ⟨hg, rfl⟩ | exact ⟨hg, trivial⟩) | exact ⟨hg, trivial⟩
+    · refine ⟨GRel.add c vars' hg ⟨hal, hnm, hfd⟩, ?_⟩
+      first | rfl | trivial
+    · first | exact ⟨hg, rfl⟩ | exact ⟨hg, trivial⟩
   | .inline tc dirs ss loc, x', g, g', vis, hr, hg => by
     simp only [RSel] at hr
-    obtain ⟨hd, ss', rfl, hss⟩ := hr
-    have hinc : included c.schema vars' dirs = included c.schema c.vars dirs :=
-      included_congr c.schema vars' c.vars dirs hd
-    simp only [collectSel, ctx', hinc]
+    obtain ⟨tc', dirs', ss', loc', rfl, htc, hinc, hss⟩ := hr
+    simp only [collectSel, ctx', hinc, htc]
     by_cases hcond : (included c.schema c.vars dirs && condApplies c.schema tc rt) = true
     · simp only [hcond, if_true]
       have hca : condApplies c.schema tc rt = true := by
         simp only [Bool.and_eq_true] at hcond; exact hcond.2
       exact collectSet_sim rt e e' he ss ss' g g' vis (hss hca) hg
     · simp only [hcond, Bool.false_eq_true, if_false]
-      first | (first | exact ⟨hg, rfl⟩ | exact ⟨hg, trivial⟩) | exact ⟨hg, trivial⟩
+      first | exact ⟨hg, rfl⟩ | exact ⟨hg, trivial⟩
   | .spread n d l, x', g, g', vis, hr, hg => by
     simp only [RSel] at hr
-    obtain ⟨hd, rfl⟩ := hr
-    have hinc : included c.schema vars' d = included c.schema c.vars d :=
-      included_congr c.schema vars' c.vars d hd
-    simp only [collectSel, ctx', hinc]
+    obtain ⟨n', d', l', rfl, hn, hinc⟩ := hr
+    simp only [collectSel, ctx', hinc, hn]
     split
     · exact he n.value g g' vis hg
-    · first | (first | exact ⟨hg, rfl⟩ | exact ⟨hg, trivial⟩) | exact ⟨hg, trivial⟩
+    · first | exact ⟨hg, rfl⟩ | exact ⟨hg, trivial⟩
 theorem collectSet_sim (rt : String) (e e' : Expand) (he : ExpandSim c vars' rt e e') :
     ∀ (x x' : SelectionSet) (g g' : Groups) (vis : List String), RT c vars' rt x x' → GRel c vars' rt g g' →
-      GRel c vars' rt (collectSet c rt e x (g, vis)).1 (collectSet (ctx' c vars') rt e' x' (g', vis)).1 ∧
-      (collectSet (ctx' c vars') rt e' x' (g', vis)).2 = (collectSet c rt e x (g, vis)).2
+      GRel c vars' rt (collectSet c rt e x (g, vis)).1 (collectSet (ctx' c vars' frags') rt e' x' (g', vis)).1 ∧
+      (collectSet (ctx' c vars' frags') rt e' x' (g', vis)).2 = (collectSet c rt e x (g, vis)).2
   | .mk sels loc, x', g, g', vis, hr, hg => by
     simp only [RSet] at hr
-    obtain ⟨sels', rfl, hl⟩ := hr
+    obtain ⟨sels', loc', rfl, hl⟩ := hr
     simp only [collectSet]
     exact collectList_sim rt e e' he sels sels' g g' vis hl hg
 theorem collectList_sim (rt : String) (e e' : Expand) (he : ExpandSim c vars' rt e e') :
     ∀ (xs xs' : List Selection) (g g' : Groups) (vis : List String), RL c vars' rt xs xs' → GRel c vars' rt g g' →
-      GRel c vars' rt (collectList c rt e xs (g, vis)).1 (collectList (ctx' c vars') rt e' xs' (g', vis)).1 ∧
-      (collectList (ctx' c vars') rt e' xs' (g', vis)).2 = (collectList c rt e xs (g, vis)).2
+      GRel c vars' rt (collectList c rt e xs (g, vis)).1 (collectList (ctx' c vars' frags') rt e' xs' (g', vis)).1 ∧
+      (collectList (ctx' c vars' frags') rt e' xs' (g', vis)).2 = (collectList c rt e xs (g, vis)).2
   | [], xs', g, g', vis, hr, hg => by
     simp only [RList] at hr
     subst hr
@@ -159,61 +159,58 @@ theorem collectList_sim (rt : String) (e e' : Expand) (he : ExpandSim c vars' rt
     simp only [collectList]
     obtain ⟨h1, h2⟩ := collectSel_sim rt e e' he x x' g g' vis hx hg
     have := collectList_sim rt e e' he xs xs'' (collectSel c rt e x (g, vis)).1
-      (collectSel (ctx' c vars') rt e' x' (g', vis)).1 (collectSel c rt e x (g, vis)).2 hxs h1
+      (collectSel (ctx' c vars' frags') rt e' x' (g', vis)).1 (collectSel c rt e x (g, vis)).2 hxs h1
     have e1 : collectSel c rt e x (g, vis) = ((collectSel c rt e x (g, vis)).1, (collectSel c rt e x (g, vis)).2) := rfl
-    have e2 : collectSel (ctx' c vars') rt e' x' (g', vis) =
-        ((collectSel (ctx' c vars') rt e' x' (g', vis)).1, (collectSel c rt e x (g, vis)).2) := by
+    have e2 : collectSel (ctx' c vars' frags') rt e' x' (g', vis) =
+        ((collectSel (ctx' c vars' frags') rt e' x' (g', vis)).1, (collectSel c rt e x (g, vis)).2) := by
       rw [← h2]
     rw [e2, e1]
     exact this
 end
 
-theorem frag_ctx' (n : String) : (ctx' c vars').frag? n = c.frag? n := rfl
-
-theorem expandSpread_sim (hf : FragsOK c vars') (rt : String) : ∀ fuel : Nat,
-    ExpandSim c vars' rt (expandSpread c rt fuel) (expandSpread (ctx' c vars') rt fuel)
+theorem expandSpread_sim (hf : FragsRel c vars' frags') (rt : String) : ∀ fuel : Nat,
+    ExpandSim c vars' rt (expandSpread c rt fuel) (expandSpread (ctx' c vars' frags') rt fuel)
   | 0 => by
     intro n g g' vis hg
     simp only [expandSpread]
     (first | exact ⟨hg, rfl⟩ | exact ⟨hg, trivial⟩)
   | fuel + 1 => by
     intro n g g' vis hg
-    simp only [expandSpread, frag_ctx']
+    simp only [expandSpread]
     by_cases hv : vis.contains n = true
     · simp only [hv, if_true]; (first | exact ⟨hg, rfl⟩ | exact ⟨hg, trivial⟩)
     · simp only [hv, Bool.false_eq_true, if_false]
-      cases hfr : c.frag? n with
-      | none => (first | exact ⟨hg, rfl⟩ | exact ⟨hg, trivial⟩)
-      | some p =>
-        obtain ⟨tc, sel⟩ := p
+      rcases hf n with ⟨h1, h2⟩ | ⟨tc, sel, tc', sel', h1, h2, htc, hrel⟩
+      · rw [h1, h2]; (first | exact ⟨hg, rfl⟩ | exact ⟨hg, trivial⟩)
+      · rw [h1, h2]
         simp only []
-        have hcs : (ctx' c vars').schema = c.schema := rfl
-        rw [hcs]
+        have hcs : (ctx' c vars' frags').schema = c.schema := rfl
+        rw [hcs, htc rt]
         by_cases hc : condApplies c.schema (some tc) rt = true
         · simp only [hc, if_true]
-          exact collectSet_sim c vars' rt _ _ (expandSpread_sim hf rt fuel) sel sel g g' (n :: vis)
-            (RSet_refl c.schema c.vars vars' sel rt (hf n tc sel hfr)) hg
+          exact collectSet_sim c vars' frags' rt _ _ (expandSpread_sim hf rt fuel) sel sel' g g' (n :: vis) (hrel rt) hg
         · simp only [hc, Bool.false_eq_true, if_false]; (first | exact ⟨hg, rfl⟩ | exact ⟨hg, trivial⟩)
 
-theorem collect_sim (hf : FragsOK c vars') (rt : String) (x x' : SelectionSet) (g g' : Groups) (vis : List String)
+theorem collect_sim (hf : FragsRel c vars' frags') (hlen : frags'.length = c.frags.length) (rt : String) (x x' : SelectionSet) (g g' : Groups) (vis : List String)
     (hr : RT c vars' rt x x') (hg : GRel c vars' rt g g') :
-    GRel c vars' rt (collect c rt x (g, vis)).1 (collect (ctx' c vars') rt x' (g', vis)).1 ∧
-    (collect (ctx' c vars') rt x' (g', vis)).2 = (collect c rt x (g, vis)).2 := by
+    GRel c vars' rt (collect c rt x (g, vis)).1 (collect (ctx' c vars' frags') rt x' (g', vis)).1 ∧
+    (collect (ctx' c vars' frags') rt x' (g', vis)).2 = (collect c rt x (g, vis)).2 := by
   unfold collect
-  have : (ctx' c vars').fragFuel = c.fragFuel := rfl
+  have : (ctx' c vars' frags').fragFuel = c.fragFuel := by
+    simp only [Ctx.fragFuel, ctx', hlen]
   rw [this]
   exact collectSet_sim c vars' rt _ _ (expandSpread_sim c vars' hf rt c.fragFuel) x x' g g' vis hr hg
 
-theorem collectMerged_sim (hf : FragsOK c vars') (ot : String) : ∀ (nodes nodes' : List FieldNode),
+theorem collectMerged_sim (hf : FragsRel c vars' frags') (ot : String) : ∀ (nodes nodes' : List FieldNode),
     All2 (fun n n' => RO c vars' ot n.sel n'.sel) nodes nodes' →
-    GRel c vars' ot (collectMerged c ot nodes) (collectMerged (ctx' c vars') ot nodes') := by
+    GRel c vars' ot (collectMerged c ot nodes) (collectMerged (ctx' c vars' frags') ot nodes') := by
   intro nodes nodes' h
   unfold collectMerged
   have key : ∀ (nodes nodes' : List FieldNode) (g g' : Groups) (vis : List String),
       All2 (fun n n' => RO c vars' ot n.sel n'.sel) nodes nodes' → GRel c vars' ot g g' →
       GRel c vars' ot
         (nodes.foldl (fun acc n => match n.sel with | some sel => collect c ot sel acc | none => acc) (g, vis)).1
-        (nodes'.foldl (fun acc n => match n.sel with | some sel => collect (ctx' c vars') ot sel acc | none => acc) (g', vis)).1 := by
+        (nodes'.foldl (fun acc n => match n.sel with | some sel => collect (ctx' c vars' frags') ot sel acc | none => acc) (g', vis)).1 := by
     intro nodes
     induction nodes with
     | nil =>
@@ -242,8 +239,8 @@ theorem collectMerged_sim (hf : FragsOK c vars') (ot : String) : ∀ (nodes node
           simp only []
           obtain ⟨h1, h2⟩ := collect_sim c vars' hf ot sel sel' g g' vis hrel hg
           have e1 : collect c ot sel (g, vis) = ((collect c ot sel (g, vis)).1, (collect c ot sel (g, vis)).2) := rfl
-          have e2 : collect (ctx' c vars') ot sel' (g', vis) =
-              ((collect (ctx' c vars') ot sel' (g', vis)).1, (collect c ot sel (g, vis)).2) := by rw [← h2]
+          have e2 : collect (ctx' c vars' frags') ot sel' (g', vis) =
+              ((collect (ctx' c vars' frags') ot sel' (g', vis)).1, (collect c ot sel (g, vis)).2) := by rw [← h2]
           rw [e2, e1]
           exact ih ns' _ _ _ hns h1
   exact key nodes nodes' [] [] [] h trivial
@@ -466,14 +463,14 @@ theorem execField_succ (fuel : Nat) (dfr : Bool) (rt : String) (src : GoVal) (p 
 /-- the four simulation statements at one fuel value -/
 def SimAt (fuel : Nat) : Prop :=
   (∀ dfr rt src path g g' acc st, GRel c vars' rt g g' → HUAll c rt g →
-    execGroups (ctx' c vars') fuel dfr rt src path g' acc st = execGroups c fuel dfr rt src path g acc st) ∧
+    execGroups (ctx' c vars' frags') fuel dfr rt src path g' acc st = execGroups c fuel dfr rt src path g acc st) ∧
   (∀ dfr rt src p fd nodes nodes' st, All2 (NodeRel c vars' rt) nodes nodes' →
     (∀ h, nodes.head? = some h → fieldDef? c.schema rt h.name = some fd) → Uniform nodes → HSub c fd.type.namedName nodes →
-    execField (ctx' c vars') fuel dfr rt src p fd nodes' st = execField c fuel dfr rt src p fd nodes st) ∧
+    execField (ctx' c vars' frags') fuel dfr rt src p fd nodes' st = execField c fuel dfr rt src p fd nodes st) ∧
   (∀ dfr t rt fname nodes nodes' p v st, SubRel c vars' t.namedName nodes nodes' → HSub c t.namedName nodes →
-    complete (ctx' c vars') fuel dfr t rt fname nodes' p v st = complete c fuel dfr t rt fname nodes p v st) ∧
+    complete (ctx' c vars' frags') fuel dfr t rt fname nodes' p v st = complete c fuel dfr t rt fname nodes p v st) ∧
   (∀ dfr item rt fname nodes nodes' p xs i acc st, SubRel c vars' item.namedName nodes nodes' → HSub c item.namedName nodes →
-    completeItems (ctx' c vars') fuel dfr item rt fname nodes' p xs i acc st =
+    completeItems (ctx' c vars' frags') fuel dfr item rt fname nodes' p xs i acc st =
       completeItems c fuel dfr item rt fname nodes p xs i acc st)
 
 theorem all2_head {α β : Type} {R : α → β → Prop} : ∀ {as : List α} {bs : List β}, All2 R as bs →
@@ -489,10 +486,10 @@ theorem isObject_of_abstract {s : Schema} {n : String} (h : s.isAbstract n = tru
   | none => simp [hf] at h
   | some td => cases td <;> simp [hf] at h ⊢
 
-theorem sim_step (hf : FragsOK c vars') (fuel : Nat) (ih : SimAt c vars' fuel) : SimAt c vars' (fuel + 1) := by
+theorem sim_step (hf : FragsRel c vars' frags') (fuel : Nat) (ih : SimAt c vars' fuel) : SimAt c vars' (fuel + 1) := by
   obtain ⟨ihG, ihF, ihC, ihI⟩ := ih
-  have hschema : (ctx' c vars').schema = c.schema := rfl
-  have hworld : (ctx' c vars').world = c.world := rfl
+  have hschema : (ctx' c vars' frags').schema = c.schema := rfl
+  have hworld : (ctx' c vars' frags').world = c.world := rfl
   refine ⟨?_, ?_, ?_, ?_⟩
   · -- execGroups
     intro dfr rt src path g g' acc st hg hu
@@ -533,13 +530,13 @@ theorem sim_step (hf : FragsOK c vars') (fuel : Nat) (ih : SimAt c vars' fuel) :
             | fuelOut => rfl
   · -- execField
     intro dfr rt src p fd nodes nodes' st hnodes hhead hunif hsub
-    have hargs : fieldArgs (ctx' c vars') fd nodes' = fieldArgs c fd nodes := by
+    have hargs : fieldArgs (ctx' c vars' frags') fd nodes' = fieldArgs c fd nodes := by
       unfold fieldArgs
       rcases all2_head hnodes with ⟨h1, h2⟩ | ⟨h, h', h1, h2, hrel⟩
       · rw [h1, h2]
       · rw [h1, h2]
         exact (hrel.2.2.2 fd (hhead h h1)).1
-    have hlog : logSt (ctx' c vars') dfr rt src p fd nodes' st = logSt c dfr rt src p fd nodes st := by
+    have hlog : logSt (ctx' c vars' frags') dfr rt src p fd nodes' st = logSt c dfr rt src p fd nodes st := by
       unfold logSt
       rw [hargs, All2.length_eq hnodes]
     have hall : ∀ n ∈ nodes, fieldDef? c.schema rt n.name = some fd := by
@@ -586,7 +583,7 @@ theorem sim_step (hf : FragsOK c vars') (fuel : Nat) (ih : SimAt c vars' fuel) :
           · simp only [hleaf, Bool.false_eq_true, if_false]
             by_cases hab : c.schema.isAbstract n = true
             · simp only [hab, if_true]
-              have hrt : runtimeTypeOf (ctx' c vars') n v = runtimeTypeOf c n v := rfl
+              have hrt : runtimeTypeOf (ctx' c vars' frags') n v = runtimeTypeOf c n v := rfl
               rw [hrt]
               cases runtimeTypeOf c n v with
               | none => rfl
@@ -646,7 +643,7 @@ theorem sim_zero : SimAt c vars' 0 := by
   · intro dfr item rt fname nodes nodes' p xs i acc st _ _; rw [completeItems_zero, completeItems_zero]
 
 /-- **the simulation**: for every fuel -/
-theorem sim_all (hf : FragsOK c vars') : ∀ fuel, SimAt c vars' fuel
+theorem sim_all (hf : FragsRel c vars' frags') : ∀ fuel, SimAt c vars' fuel
   | 0 => sim_zero c vars'
   | fuel + 1 => sim_step c vars' hf fuel (sim_all hf fuel)
 
